@@ -57,8 +57,37 @@ CONTRACTS = {
         trace=[{"name": "C10 zip mode expands position-wise, product mode as the cartesian product; nothing else is accepted",
                 "check": lambda tr, outcome, raised, env, ex, s: __import__("contracts.c_map", fromlist=["x"]).mode_dispatch(tr, outcome, raised, env, ex, s)}],
     ),
+    F + "collect_as_lists": dict(
+        props=["C10"],
+        params={"results": SEQ(OBJ("RunResult")), "node": OBJ("GraphNode"), "error_handling": STR},
+        returns=DICT(STR, SEQ(ANY)),
+        imports={"RunStatus": "hypergraph.runners._shared.types"},
+        requires=["distinct_names(node.outputs)"],
+        # raise mode: the first failed item's own error propagates; otherwise nothing is raised
+        may_raise={"BaseException": "error_handling == 'raise' and any(r.status == RunStatus.FAILED for r in results)"},
+        ensures=[
+            # every output of the mapping node is a list with EXACTLY one entry per item (None where an item failed or did not
+            # produce the output), and nothing else is returned
+            "all(n in result and len(result[n]) == len(results) for n in node.outputs)",
+            "all(old(k in node.outputs) for k in result)",
+        ],
+        modifies=[],
+        loops=[
+            {"modifies": "non-entry", "invariant": [
+                "all(n in collected and is_new(collected[n]) and len(collected[n]) == _i for n in node.outputs)",
+                "all(old(k in node.outputs) for k in collected)",
+                "all(a == b or collected[a] is not collected[b] for a in node.outputs for b in node.outputs)", "is_new(collected)"]},
+            {"modifies": "non-entry", "invariant": [
+                "all(n in collected and is_new(collected[n]) and len(collected[n]) == _i0 + (1 if n in _seq[:_i] else 0) for n in node.outputs)",
+                "all(old(k in node.outputs) for k in collected)",
+                "all(a == b or collected[a] is not collected[b] for a in node.outputs for b in node.outputs)", "is_new(collected)"]},
+            {"modifies": "non-entry", "invariant": [
+                "all(n in collected and is_new(collected[n]) and len(collected[n]) == _i0 + (1 if n in _seq[:_i] else 0) for n in node.outputs)",
+                "all(old(k in node.outputs) for k in collected)",
+                "all(a == b or collected[a] is not collected[b] for a in node.outputs for b in node.outputs)", "is_new(collected)"]},
+        ],
+    ),
 }
-
 
 def mode_dispatch(tr, outcome, raised, env, ex, s):
     import z3
